@@ -4,7 +4,7 @@ from __future__ import annotations
 import ast
 import re
 
-from sa.loader import recv, norm, norm1, walk_shallow, own_nodes, call_name
+from sa.loader import recv, norm, norm1, walk_shallow, own_nodes, call_name, AnalysisError, is_logging_stmt
 from sa.tables import fold, Unfoldable, compiled_patterns, parse_regex, OPS
 from sa.rulekit import (nodes_calling, node_calls, nodes_where, return_nodes, handlers_in,
                         handler_reraises, is_const)
@@ -178,6 +178,8 @@ def _frac_case(rule, body, vname, flag, sep, flagval):
             elif isinstance(st, ast.Assign) and len(st.targets) == 1 and isinstance(st.targets[0], ast.Name):
                 env[st.targets[0].id] = ev(st.value)
             elif isinstance(st, ast.Expr) and isinstance(st.value, ast.Constant):
+                continue
+            elif is_logging_stmt(st):
                 continue
             else:
                 fail(st)
